@@ -355,6 +355,11 @@ def subspaces(tier, seed):
                 threshold=1, seed=seed))
     sp.append(S("S2-mask-pos-chunkwise-n1to3", 2, 1, 3, keys=("float",), mask="pos", threshold=1,
                 sorts=(True,), ops=SUB, seed=seed))
+    # narrow / unsigned / bool values on chunk-wise keys with a boolean mask: a chunk in which the mask
+    # rejects every row of a group contributes an empty partial whose filler is an ordinary number
+    for vd in ("i4", "u1", "b") + (() if q else ("i1", "i2", "u8")):
+        sp.append(S(f"S2-val-{vd}-chunkwise-boolmask-n2to{hi}", 2, 2, hi, keys=("float",), vdtype=vd,
+                    threshold=1, sorts=(True,), ops=("min", "max", "first", "last", "sum"), seed=seed))
     sp.append(S(f"S2-key-str_obj-chunkwise-n1to{hi}", 2 if q else 3, 1, hi, keys=("str_obj",),
                 threshold=1, seed=seed))
     # S3: key dtype x value dtype on short words
